@@ -550,7 +550,7 @@ func (g *Gen) storeAt(st *State, ref string, t types.Type, tag string, val strin
 	cur := g.sc.lookup(st, tag)
 	st.mem[tag] = g.sc.define("m_"+tag, g.sc.tagSort[tag], fmt.Sprintf("(store %s %s %s)", cur, ref, val))
 	if g.storeFresh {
-		g.sc.oldEq[st.mem[tag]] = g.sc.oldBase(cur)
+		g.sc.setStep(st.mem[tag], cur, fmt.Sprintf("(rb %s)", ref))
 	} else {
 		g.frameWrite(st, tag, fmt.Sprintf("(rb %s)", ref), cur, st.mem[tag])
 	}
@@ -574,7 +574,7 @@ func (g *Gen) frameWrite(st *State, tag, rbTerm, cur, nw string) {
 	o := g.addObl("frame-write", tag, st, goal, token.NoPos)
 	o.Text = "write to a heap location outside the modifies clause must target an object allocated by the function"
 	g.sc.assume(st.pc, goal)
-	g.sc.oldEq[nw] = g.sc.oldBase(cur)
+	g.sc.setStep(nw, cur, rbTerm)
 }
 
 // isFreshRoot: the address points into an object allocated by this function.
@@ -717,7 +717,10 @@ func (g *Gen) mapUpdate(st *State, mt *types.Map, m, k, v string) {
 	st.mem[d] = g.sc.define("m_dom", g.sc.tagSort[d], fmt.Sprintf("(store %s %s (store (select %s %s) %s true))", dom, m, dom, m, k))
 	st.mem[vt] = g.sc.define("m_val", g.sc.tagSort[vt], fmt.Sprintf("(store %s %s (store (select %s %s) %s %s))", vals, m, vals, m, k, v))
 	if g.storeFresh {
-		g.sc.oldEq[st.mem[l]], g.sc.oldEq[st.mem[d]], g.sc.oldEq[st.mem[vt]] = g.sc.oldBase(lens), g.sc.oldBase(dom), g.sc.oldBase(vals)
+		rbm := fmt.Sprintf("(rb %s)", m)
+		g.sc.setStep(st.mem[l], lens, rbm)
+		g.sc.setStep(st.mem[d], dom, rbm)
+		g.sc.setStep(st.mem[vt], vals, rbm)
 	} else {
 		g.frameWrite(st, l, fmt.Sprintf("(rb %s)", m), lens, st.mem[l])
 		g.frameWrite(st, d, fmt.Sprintf("(rb %s)", m), dom, st.mem[d])
@@ -1246,7 +1249,10 @@ func (g *Gen) applyLoopHavoc(li *loopInfo, st *State, all bool, tags map[string]
 			nw := st.mem[t]
 			g.sc.emit("(assert (forall ((r Ref)) (! (=> %s (= (select %s r) (select %s r))) :pattern ((select %s r)))))", cond, nw, old, nw)
 			if !w.oldRoots {
-				g.sc.oldEq[nw] = g.sc.oldBase(old)
+				// objects written in the loop: the listed roots (allocated by this function before the loop) and
+				// objects allocated inside the loop (rb >= frontier at loop entry)
+				bs := append([]string{entryFrontier}, roots...)
+				g.sc.setStep(nw, old, bs...)
 			}
 		}
 	}
@@ -1390,7 +1396,9 @@ func (g *Gen) invariantTerms(li *loopInfo, st *State, phiVals map[*ssa.Phi]strin
 			terms = append(terms, fmt.Sprintf("(forall ((r Ref)) (! (=> (< (rb r) %s) (= (select %s r) (select %s r))) :pattern ((select %s r))))", g.oldFrontier, cur, was, cur))
 			clauses = append(clauses, &Clause{Kind: "invariant", Label: "preserves-old:" + t, Text: "objects older than the function entry are unchanged in " + t})
 			if phiVals == nil { // assumed at the loop head
-				g.sc.oldEq[cur] = g.sc.oldBase(was)
+				if g.sc.oldBase(cur) != g.sc.oldBase(was) {
+					g.sc.setStep(cur, was, g.oldFrontier)
+				}
 			}
 		}
 	}
